@@ -24,7 +24,11 @@ RULE = (
     "tree re-drawn between updates; non-trivial = at least 2 updates that are observable (online != "
     "target, not tau=0) with an online change between them. History level: a training routine with "
     "generated episode script, learning_starts, delays, tau, gradient steps, batch size, seeds, target "
-    "supplied or None; non-trivial = at least 2 observed target updates with at least one online update "
+    "supplied or None; the supplied targets are fresh clones of the online networks or (target_offset, "
+    "~40 % of the cases of every routine) clones with every parameter leaf changed (0.5*x + c), as a caller "
+    "holds them after earlier training; MR.Q additionally as two calls, the second continuing exactly on a "
+    "target-period boundary with what the first returned (split); the timeline starts with the state handed "
+    "to the routine; non-trivial = at least 2 observed target updates with at least one online update "
     "between them. Distinct = distinct canonical case."
 )
 ASSUMPTIONS = [
@@ -336,7 +340,14 @@ def run_fn(case):
 #       the rule holds (a hard copy of an unchanged online net is a no-op and
 #       counts as holding);
 #   (c) hence the first update is no later than k units after learning starts;
-#   (d) no change in a step before ``learning_starts``.
+#   (d) no change in a step before ``learning_starts``;
+#   (e) no change between the hand-over of the networks to the routine ("init"
+#       observation, taken right before every call) and the first environment
+#       step of that call: every documented update point lies behind a
+#       gradient step of an environment step.  With ``target_offset`` the
+#       supplied targets differ from the online networks in every leaf, so a
+#       copy at call start is visible to (d), (e) and the slot cadence; the
+#       'target=None twin' is compared only when the targets start as clones.
 #
 # "Online network of that moment": the routines update the online network
 # before the target inside one step and call the logger afterwards, so the
@@ -474,6 +485,11 @@ def analyse_timeline(algo, cfg, rec, out, priors=None):
         for i in changes:
             check(obs[i]["owner"] >= ls, f"{base}.cadence.change_before_learning_starts",
                   lambda i=i: f"learning_starts={ls} batch_size={cfg['batch_size']}: {pv.explain(i)}")
+        # (e) nothing between the hand-over to the routine and its first environment step
+        for i in changes:
+            check(obs[i - 1]["kind"] != "init", f"{base}.cadence.change_at_call_start",
+                  lambda i=i: f"global_step={obs[i]['t']} learning_starts={ls} delay={k}: the supplied {target} "
+                              f"changed before the first environment step of the call: {pv.explain(i)}")
         n_updates = max(n_updates, len(changes))
         if spec["cadence"] == "slots":
             gs_seen = {}
@@ -655,14 +671,38 @@ def history_cases(algo):
             budget += 12  # training is deferred to episode ends
         cfg["total_timesteps"] = g + max(1, min(100, budget))
         cfg["script"] = _script(draw, min_first)
+        # supplied targets that differ from the online networks (as after earlier training)
+        cfg["target_offset"] = draw(st.sampled_from([False, False, False, True, True]))
+        if cfg["target_offset"]:
+            cfg["twin"] = False  # the twin is defined for targets that start as clones only
+        if algo == "mrq":
+            # two calls: the continuation starts exactly on a target-period boundary
+            # ((global_step - learning_starts) % target_delay == 0) with everything the first call returned
+            m = draw(st.sampled_from([0, 1, 1, 1, 2]))
+            if m and m < n_upd:
+                first_boundary = ls + k * ((max(g, ls) - ls) // k + 1)  # first one behind the start of training
+                cfg["split"] = first_boundary + k * (m - 1)  # at least one update point left for the second call
         return cfg
     return cases
 
 
 def simplify_history(case):
     c = dict(case)
+    if c.get("split"):
+        c0 = dict(c)
+        del c0["split"]
+        yield c0
+        n0 = c["total_timesteps"]
+        for m in (c["split"] + (n0 - c["split"]) // 2, n0 - 1):
+            if c["split"] < m < n0:
+                yield dict(c, total_timesteps=m)
+        if len(c["script"]) > 1:
+            yield dict(c, script=c["script"][:-1])
+        return  # other candidates would move the boundary: they apply to the single-call form
     if c.get("twin"):
         yield dict(c, twin=False)
+    if c.get("target_offset"):
+        yield dict(c, target_offset=False)
     if c.get("global_step", 0) > 0 and c["total_timesteps"] - c["global_step"] >= 1:
         yield dict(c, global_step=0, total_timesteps=c["total_timesteps"] - c["global_step"])
     g = c.get("global_step", 0)
@@ -705,7 +745,7 @@ def make_run_history(algo):
                 check(same_bytes(state_arrays(m), state_arrays(out["final_watch"][name])),
                       f"{algo}.{name}.supplied_target_not_returned",
                       "returned target differs from the supplied target object")
-        if cfg.get("twin"):
+        if cfg.get("twin") and not cfg.get("target_offset"):
             _, out_b = run_history(algo, cfg, supply_targets=False, observe=False)
             check_storage(algo, out_b, "target=None")
             check_twin(algo, out, out_b)
@@ -717,6 +757,9 @@ def make_run_history(algo):
             labels.append("grad_steps=2")
         if cfg.get("global_step", 0) > 0:
             labels.append("continued")
+        labels.append("targets=offset" if cfg.get("target_offset") else "targets=clones")
+        if cfg.get("split"):
+            labels.append("continued-on-period-boundary")
         if algo in ("nature_dqn", "ddqn", "per"):
             labels.append("ls>bs" if cfg["learning_starts"] > cfg["batch_size"] + 1 else "ls<=bs")
         nt = n_updates >= 2
